@@ -20,7 +20,7 @@ from .. import framework as fw
 from .. import families_c07 as C
 from ._engine import TRUSTED
 
-SIZES = dict(quick=120, thorough=5000)
+SIZES = dict(quick=100, thorough=1500)
 
 
 def _report(ctx, f, source):
@@ -90,7 +90,7 @@ def model_selfcheck(ctx, cp):
 
 
 def run(ctx):
-    g = ctx.coq_gate("PropC07")
+    g = ctx.coq_gate("PropC07", bins=["crash", "monitor"])
     cov = ctx.coverage
     streams = {}
     if g is not None:
